@@ -306,7 +306,8 @@ func vC14KeyLen(r *rand.Rand) int {
 	}
 }
 
-var vC14Labels = []string{"example", "Example", "EXAMPLE", "com", "COM", "net", "a", "B", "www", "WWW", "mail", "x-1", "_tcp", "sub", "Sub", "evil", "evilexample", "z9", "1", "host"}
+var vC14Labels = []string{"example", "Example", "EXAMPLE", "com", "COM", "net", "a", "B", "www", "WWW", "mail", "x-1", "_tcp", "sub", "Sub", "evil", "evilexample", "z9", "1", "host",
+	`w\.w`, `b\\b`, `sp\032ace`, "example", "com"}
 
 func vC14Label(r *rand.Rand) string {
 	switch r.Intn(12) {
@@ -728,7 +729,7 @@ func vC14Alg(r *rand.Rand) uint8 {
 	case 0:
 		return uint8(r.Intn(256))
 	case 1:
-		return []uint8{1, 1, 3, 5, 6, 12, 16, 0, 255}[r.Intn(9)]
+		return []uint8{1, 1, 1, 1, 3, 6, 12, 16, 0, 255}[r.Intn(10)]
 	}
 	return []uint8{5, 7, 8, 10, 13, 14, 15}[r.Intn(7)]
 }
@@ -750,9 +751,12 @@ func vC14CaseKeyTag(tr *vC14Trace, r *rand.Rand) {
 		k.Protocol = uint8(r.Intn(256))
 	}
 	if k.Algorithm == dns.RSAMD5 && r.Intn(2) == 0 { // short moduli are where the library's own derivation breaks
-		raw := vC14RandBytes(r, r.Intn(6))
+		raw := vC14RandBytes(r, []int{0, 1, 2, 2, 3, 4}[r.Intn(6)])
 		k.PublicKey = base64.StdEncoding.EncodeToString(raw)
 		shape = "rsamd5-short"
+		if r.Intn(4) == 0 { // two octets reached through a long, wrapped or damaged encoding
+			k.PublicKey = vC14Wrap(r, k.PublicKey)
+		}
 		if r.Intn(3) == 0 {
 			k.PublicKey = vC14Mangle(r, k.PublicKey)
 		}
@@ -950,7 +954,11 @@ func vC14CaseRSAVerify(tr *vC14Trace, r *rand.Rand, key *vC14RSAKey, kind string
 		}
 	}
 	if shape == "valid" {
-		switch r.Intn(12) {
+		pick := r.Intn(12)
+		if key.n.BitLen()%8 == 1 && r.Intn(2) == 0 {
+			pick = 3 // s + n still fits the modulus length when the top octet of n is 1
+		}
+		switch pick {
 		case 0:
 			sig[r.Intn(len(sig))] ^= 1 << uint(r.Intn(8))
 			shape = "bit-flipped"
@@ -1216,8 +1224,13 @@ func vC14CaseVerifyDS(tr *vC14Trace, r *rand.Rand) {
 	var keys []*dns.DNSKEY
 	for i := 0; i < nk; i++ {
 		k := vC14GenDNSKEY(r, vC14MixCase(r, zone))
-		if r.Intn(8) == 0 {
+		switch r.Intn(10) {
+		case 0:
 			k.Hdr.Name = vC14Name(r, 2)
+		case 1: // not a zone key: everything else about it will match its DS
+			k.Flags = []uint16{0, 1, 128, 0xfeff}[r.Intn(4)]
+		case 2:
+			k.Protocol = []uint8{0, 2, 4, 255}[r.Intn(4)]
 		}
 		keys = append(keys, k)
 	}
